@@ -37,6 +37,46 @@ type State struct {
 	ghost  map[string]T // ghost counters etc.
 	epoch  int          // bumped by `modifies everything`: untouched heap keys start from fresh arrays
 	ghostEpoch int
+	chain      []epochStep // how the current epoch was reached (for keys excepted from a havoc)
+}
+
+type epochStep struct {
+	epoch, prev, prevGhost int
+	except      []string
+}
+
+func exceptMatches(except []string, key string) bool {
+	for _, p := range except {
+		if strings.HasPrefix(key, p) {
+			return true
+		}
+	}
+	return false
+}
+
+// baseEpoch: the epoch whose unknown array an untouched heap key still refers to.
+func (s *State) baseEpoch(key string) int {
+	e := s.epoch
+	for i := len(s.chain) - 1; i >= 0; i-- {
+		if s.chain[i].epoch == e && exceptMatches(s.chain[i].except, key) {
+			e = s.chain[i].prev
+		} else if s.chain[i].epoch == e {
+			break
+		}
+	}
+	return e
+}
+
+func (s *State) baseGhostEpoch(name string) int {
+	e := s.ghostEpoch
+	for i := len(s.chain) - 1; i >= 0; i-- {
+		if s.chain[i].epoch == e && exceptMatches(s.chain[i].except, "ghost:"+name) {
+			e = s.chain[i].prevGhost
+		} else if s.chain[i].epoch == e {
+			break
+		}
+	}
+	return e
 }
 
 func newState() *State {
@@ -60,6 +100,7 @@ func (s *State) clone() *State {
 	n.top = s.top
 	n.epoch = s.epoch
 	n.ghostEpoch = s.ghostEpoch
+	n.chain = append([]epochStep(nil), s.chain...)
 	n.defers = append([]deferRec(nil), s.defers...)
 	return n
 }
@@ -96,8 +137,8 @@ func (c *Ctx) heapGet(st *State, key, sort string) T {
 	if t, ok := st.heap[key]; ok {
 		return t
 	}
-	if st.epoch > 0 {
-		return c.heapEpoch(st.epoch, key, sort)
+	if e := st.baseEpoch(key); e > 0 {
+		return c.heapEpoch(e, key, sort)
 	}
 	return c.heapInit(key, sort)
 }
@@ -588,6 +629,7 @@ func (c *Ctx) merge(ins []edgeIn) *State {
 		if in.st.epoch > out.epoch {
 			out.epoch = in.st.epoch
 			out.ghostEpoch = in.st.ghostEpoch
+			out.chain = append([]epochStep(nil), in.st.chain...)
 		}
 	}
 	// keys untouched in every incoming state but living in different epochs
